@@ -255,7 +255,7 @@ class GriffeLoader:
             )
         return unresolved, iteration
 
-    def expand_exports(self, module: Module, seen: set | None = None) -> None:
+    def expand_exports(self, module: Module, seen: set | None = None, *, submodules: bool = True) -> None:
         """Expand exports: try to recursively expand all module exports (`__all__` values).
 
         See also: [`Module.exports`][griffe.Module.exports].
@@ -263,25 +263,27 @@ class GriffeLoader:
         Parameters:
             module: The module to recurse on.
             seen: Used to avoid infinite recursion.
+            submodules: Whether to recurse on the submodules (after expanding the exports of the module itself).
         """
         seen = seen or set()
         seen.add(module.path)
-        if module.exports is None:
-            return
-
         expanded = []
-        for export in module.exports:
+        for export in module.exports or ():
             # It's a name: we resolve it, get the module it comes from,
             # recurse into it, and add its exports to the current ones.
             if isinstance(export, ExprName):
-                module_path = export.canonical_path.rsplit(".", 1)[0]  # Remove trailing `.__all__`.
+                # Find the module that defines the `__all__` attribute this name refers to,
+                # following imports if needed (the name could be imported through another module).
                 try:
-                    next_module = self.modules_collection.get_member(module_path)
-                except KeyError:
+                    next_exports = self.modules_collection.get_member(export.canonical_path)
+                    if next_exports.is_alias:
+                        next_exports = next_exports.final_target
+                    next_module = next_exports.module
+                except (KeyError, AliasResolutionError, CyclicAliasError):
                     logger.debug("Cannot expand '%s', try pre-loading corresponding package", export.canonical_path)
                     continue
                 if next_module.path not in seen:
-                    self.expand_exports(next_module, seen)
+                    self.expand_exports(next_module, seen, submodules=False)
                 try:
                     expanded += [export for export in next_module.exports if export not in expanded]
                 except TypeError:
@@ -289,12 +291,16 @@ class GriffeLoader:
             # It's a string, simply add it to the current exports.
             else:
                 expanded.append(export)
-        module.exports = expanded
+        if module.exports is not None:
+            module.exports = expanded
 
-        # Make sure to expand exports in all modules.
-        for submodule in module.modules.values():
-            if not submodule.is_alias and submodule.path not in seen:
-                self.expand_exports(submodule, seen)
+        # Make sure to expand exports in all modules (also below modules without `__all__`,
+        # and below modules that were only expanded because another module needed their exports).
+        # We don't use `module.modules` here: checking the kind of aliases would resolve them too early.
+        if submodules:
+            for submodule in module.members.values():
+                if not submodule.is_alias and submodule.is_module:
+                    self.expand_exports(submodule, seen)  # type: ignore[arg-type]
 
     def expand_wildcards(
         self,
